@@ -15,7 +15,9 @@ Operands3 == {
   [name |-> "F3", depth |-> 3, rep |-> (1 :> {0} @@ 2 :> {} @@ 3 :> {})],
   [name |-> "G2", depth |-> 2, rep |-> (1 :> {} @@ 2 :> {0, 3})],
   [name |-> "H4", depth |-> 4, rep |-> (1 :> {} @@ 2 :> {} @@ 3 :> {9} @@ 4 :> {0, 1, 2, 3, 17, 63})],
-  [name |-> "I4", depth |-> 4, rep |-> (1 :> {} @@ 2 :> {2} @@ 3 :> {} @@ 4 :> {20})] }
+  [name |-> "I4", depth |-> 4, rep |-> (1 :> {} @@ 2 :> {2} @@ 3 :> {} @@ 4 :> {20})],
+  \* two levels finer, with pixels stored at an intermediate level
+  [name |-> "J5", depth |-> 5, rep |-> (1 :> {} @@ 2 :> {} @@ 3 :> {} @@ 4 :> {20} @@ 5 :> {100, 255})] }
 
 Operands2 == {
   [name |-> "A2", depth |-> 2, rep |-> (1 :> {} @@ 2 :> {0, 1})],
@@ -23,7 +25,8 @@ Operands2 == {
   [name |-> "E2", depth |-> 2, rep |-> (1 :> {} @@ 2 :> {})],
   [name |-> "F2", depth |-> 2, rep |-> (1 :> {0} @@ 2 :> {})],
   [name |-> "G1", depth |-> 1, rep |-> (1 :> {0})],
-  [name |-> "H3", depth |-> 3, rep |-> (1 :> {} @@ 2 :> {2} @@ 3 :> {0, 5, 15})] }
+  [name |-> "H3", depth |-> 3, rep |-> (1 :> {} @@ 2 :> {2} @@ 3 :> {0, 5, 15})],
+  [name |-> "J4", depth |-> 4, rep |-> (1 :> {} @@ 2 :> {} @@ 3 :> {5} @@ 4 :> {33, 63})] }
 
 Operands1 == {
   [name |-> "A1", depth |-> 1, rep |-> (1 :> {0})],
